@@ -505,8 +505,63 @@ func bmGoodBlock(r *rand.Rand, t reflect.Type, depth int, stats map[string]int) 
 	return b
 }
 
+// bmWholeAndParts: a block that writes an embedded struct as a whole (a nested block under its
+// name) and through several of its promoted fields as well, every key in a random spelling, so
+// that the key of the whole sorts before, between or after the keys of the parts: one key in
+// conflict with several others.
+func bmWholeAndParts(r *rand.Rand, t reflect.Type, depth int, stats map[string]int) (bcl.Block, bool) {
+	for i := 0; i < t.NumField(); i++ {
+		f := t.Field(i)
+		ft := f.Type
+		if ft.Kind() == reflect.Pointer {
+			ft = ft.Elem()
+		}
+		if !f.Anonymous || !f.IsExported() || ft.Kind() != reflect.Struct || ft.NumField() < 2 {
+			continue
+		}
+		b := bmGoodBlock(r, t, depth, stats)
+		n := 0
+		for j := 0; j < ft.NumField(); j++ {
+			g := ft.Field(j)
+			if !g.IsExported() || r.Intn(5) == 0 {
+				continue
+			}
+			key := bmSpell(r, g.Name)
+			switch g.Type {
+			case tInt:
+				b.Fields[key] = r.Intn(100)
+			case tFloat:
+				b.Fields[key] = 1.5
+			case tString:
+				b.Fields[key] = "v"
+			case tBool:
+				b.Fields[key] = true
+			default:
+				continue
+			}
+			n++
+		}
+		if n < 2 {
+			continue
+		}
+		whole := bcl.Block{Type: "t", Fields: map[string]any{}}
+		if r.Intn(2) == 0 && depth > 0 {
+			whole = bmGoodBlock(r, ft, depth-1, stats)
+		}
+		b.Fields[bmSpell(r, f.Name)] = whole
+		stats["block.whole-and-parts"]++
+		return b, true
+	}
+	return bcl.Block{}, false
+}
+
 func bmBlock(r *rand.Rand, t reflect.Type, depth int, stats map[string]int) bcl.Block {
 	if t != nil && t.Kind() == reflect.Struct && r.Intn(5) < 2 {
+		if r.Intn(3) == 0 {
+			if b, ok := bmWholeAndParts(r, t, depth, stats); ok {
+				return b
+			}
+		}
 		return bmGoodBlock(r, t, depth, stats)
 	}
 	b := bcl.Block{Type: "t", Fields: map[string]any{}}
@@ -788,6 +843,28 @@ func streamBindModel(ctx *Ctx) *Result {
 		if model != impl {
 			res.Fail(Failure{Kind: "model-diff", Op: "BIND", Input: input(), Impl: impl, Model: model,
 				Expected: "the binder model and bcl.Bind agree on the outcome and on the target after the call"})
+		}
+		// direct oracle (C16): the same call on an equal target returns the same error, word for word
+		if err != nil && ptr.IsValid() && nblocks > 0 {
+			texts := map[string]int{}
+			for k := 0; k < 12; k++ {
+				fresh := reflect.New(ptr.Elem().Type())
+				var e2 error
+				v := guarded(opTimeout, func() string { e2 = bcl.Bind(fresh.Interface(), binding); return "" })
+				if v != "" {
+					break
+				}
+				if e2 == nil {
+					texts["<nil>"]++
+				} else {
+					texts[e2.Error()]++
+				}
+			}
+			res.Count("repeat.on-error", 1)
+			if len(texts) > 1 {
+				res.Fail(Failure{Kind: "oracle", Op: "Bind repeated", Input: input(), Impl: fmt.Sprintf("%d different results of 12 identical calls on fresh targets: %v", len(texts), texts),
+					Expected: "the same binding on an equal target gives the same error every time"})
+			}
 		}
 		if nblocks > 0 && ptr.IsValid() {
 			n := 0
